@@ -184,6 +184,31 @@ fn one_session(ctx: &mut Ctx, source: &str, root: &str, iter: u64) -> Option<Str
             ctx.viol("share-verification-parity", "accepts-negated", d("negated share accepted", json!({"cell": format!("P{par_p}/Q{par_q}/R{par_r}")})));
         }
         ctx.count("share_verdicts");
+        // a signer that gets one of the three negations wrong (nonce not negated for odd R, key share not negated for
+        // odd P or odd Q): its share is a wrong share in every parity cell - rejected alone, and named by aggregation
+        let neg_key = |v: &frost_core::VerifyingKey<T>| frost_core::VerifyingKey::<T>::new(ident::<T>() - v.to_element());
+        let cands = [eff_vk, neg_key(&eff_vk), *grp.pkp.verifying_key(), neg_key(grp.pkp.verifying_key())];
+        for (vname, v) in crate::props::c04::parity_confused::<T>(&pkg, &nonces[id], id, share_sc::<T>(&shares[id]), &cands) {
+            let bad = share_from::<T>(v);
+            let cell = format!("P{par_p}/Q{par_q}/R{par_r}");
+            if frost_core::verify_signature_share(*id, &vs, &bad, &pkg, &eff_vk).is_ok() {
+                ctx.viol("share-verification-parity", "accepts-sign-confused", d("a share with one sign convention flipped is accepted", json!({"cell": cell, "variant": vname, "signer": id_hex::<T>(id)})));
+            }
+            let mut s2 = shares.clone();
+            s2.insert(*id, bad);
+            for (mode, mname) in [(CheaterDetection::FirstCheater, "first"), (CheaterDetection::AllCheaters, "all")] {
+                match frost_core::aggregate_custom(&pkg, &s2, &eff_pkp, mode) {
+                    Ok(_) => ctx.viol("cheater-identification-parity", &format!("accepted-sign-confused/{mname}"), d("aggregate accepted a sign-confused share", json!({"cell": cell, "variant": vname}))),
+                    Err(e) => {
+                        if e.culprits() != vec![*id] {
+                            ctx.viol("cheater-identification-parity", &format!("culprits-sign-confused/{mname}"), d("the sign-confused signer is not the one named", json!({"cell": cell, "variant": vname, "err": format!("{e:?}"), "signer": id_hex::<T>(id)})));
+                        }
+                    }
+                }
+                ctx.count("cheater_verdicts");
+            }
+            ctx.count("sign_confused_shares");
+        }
     }
     // cheater subsets: one, two, all
     let mut sorted = signers.clone();
